@@ -52,7 +52,34 @@ def sf_impl(E, st, args, kw):
     return [('val', st, mk_bool(z3.simplify(z3.Implies(_tz(E, st, a), _tz(E, st, b)))))]
 
 
-for _nm, _fn in (('bxor', sf_bxor), ('conj', sf_conj), ('disj', sf_disj), ('impl', sf_impl)):
+def _flat_concat(t):
+    if z3.is_app(t) and t.decl().kind() == z3.Z3_OP_SEQ_CONCAT:
+        out = []
+        for ch in t.children():
+            out += _flat_concat(ch)
+        return out
+    return [t]
+
+
+def sf_take(E, st, args, kw):
+    """take(s, n) = s[:n] for 0 <= n <= len(s), written without an extract when n falls on a boundary of the concatenation
+    s is built from (z3 does not see extract(a ++ b, 0, len a) == a for symbolic lengths); exact under the path condition"""
+    from vf.pyvc.models import seq_length
+    s, n = args
+    zs, zn = zbytes(s), zint(n)
+    parts = _flat_concat(zs)
+    if 1 < len(parts) <= 6:
+        tot = z3.IntVal(0)
+        for j, p_ in enumerate(parts):
+            if E.implied(st, zn == tot):
+                return [('val', st, mk_bytes(z3.Concat(*parts[:j]) if j > 1 else parts[0] if j == 1 else z3.Empty(BYTES)))]
+            tot = z3.simplify(tot + seq_length(E, st, p_))
+        if E.implied(st, zn == tot):
+            return [('val', st, mk_bytes(zs))]
+    return [('val', st, mk_bytes(z3.SubSeq(zs, 0, zn)))]
+
+
+for _nm, _fn in (('bxor', sf_bxor), ('conj', sf_conj), ('disj', sf_disj), ('impl', sf_impl), ('take', sf_take)):
     SPEC_FORMS.setdefault(_nm, _fn)
     _interp.SPEC_BUILTINS.setdefault(_nm, BuiltinV('spec.' + _nm, _fn))
 
